@@ -20,6 +20,7 @@ func init() {
 			"R2 within one iteration the self-match test is never reached after the recursive descent (pre-order), the element's own children are searched on every iteration whose element is grouped, and with findMultiple == false the first append is followed by a return on every path; " +
 			"R3 the path walker recurses only with path[1:], only on elements whose code equals path[0], only into the children of a *GroupedAVP, appends an element only when len(path) == 1, and the generic walker recurses with the same code and mode; " +
 			"R4 the public entry points pass the walkers m.AVP and the Code of the dictionary AVP found for the caller's argument, and return the lookup error without walking. " +
+			"R2 also: one pass builds one result list (no second scan that could reorder results). R4 also: the walkers are reached on every non-error path of the entry points, and the code they are given derives only from the dictionary lookup of the caller's argument. " +
 			"Not decided: equality with a reference walk over all trees as executed behaviour.",
 		Rules: map[string]string{
 			"R1": "appends are guarded by the code match (or are recursive results)",
